@@ -49,6 +49,9 @@ F_ASTPRE = clause(UF, 'pre:ast_is_function', ['C07'], 'P')
 F_STRIPPED = clause(UF, 'pre:own_signature_read_with_the_wrapper_attributes_stripped', ['C05', 'C06', 'C07'], 'P',
                     'the signature paired with the function\'s own AST is the one of its def: when autoforwards_function asks inspect for it, '
                     'neither __signature__ nor __wrapped__ is in the instance dict (whichever subset of the two the object carries)')
+F_ANN = clause(UF, 'post:annotate_values_reach_discovery', ['C11'], 'P',
+               'values given to modifiers.annotate are reported verbatim also through automatic discovery: the signature discovery starts from '
+               'carries, for every parameter annotate was given a value for, that value')
 F_UA = clause(UF, 'post:own_annotations_resolve_in_own_globals', ['C11'], 'P',
               'the signature handed to discovery carries, for every annotated parameter of the inspected function, a wrapper that denotes the annotation in THAT function\'s '
               'globals under ITS compilation mode - whatever the function it wraps (__wrapped__) looks like')
@@ -136,7 +139,7 @@ def is_unknown_forwards(I, exc):
     return z3.BoolVal(False)
 
 
-def make_runner(mode, shape=DEF_SHAPES[0], node='FunctionDef', kind='function', want=None, variant=None):
+def make_runner(mode, shape=DEF_SHAPES[0], node='FunctionDef', kind='function', want=None, variant=None, annotated=False):
     variant = dict(variant or {})     # symbolic choices fixed by the task (splits one unit over several tasks)
     I = Interp()
     env = {'interp': I, 'mode': mode}
@@ -219,6 +222,16 @@ def make_runner(mode, shape=DEF_SHAPES[0], node='FunctionDef', kind='function', 
         if mode == 'af_function_ua':
             wrapped = new_obj('wrapped_target')
             f = new_obj('func', slots={'__wrapped__': slot('func', 'wrapped', wrapped)})
+            env['annotated'] = None
+            if annotated:
+                # modifiers.annotate left an upgraded signature on the function: the def parameters, with the GIVEN values as
+                # (pre-evaluated) annotations of an arbitrary subset of them
+                ai = mk_sig(I, ctx, 'n', shape, tracked=False)
+                ctx.add(z3.Not(ai.postponed))
+                for a_, b_ in zip(ai.names, info.names):
+                    ctx.add(a_ == b_)
+                f.slots['__signature__'] = Slot(True, False, ai.sig, None)
+                env['annotated'] = ai
             env['f'] = f
             env['sigs_to_discovery'] = []
             prev = I.call_hooks['_autoforwards:autoforwards_ast']
@@ -234,6 +247,9 @@ def make_runner(mode, shape=DEF_SHAPES[0], node='FunctionDef', kind='function', 
             wrapped = new_obj('wrapped_target')
             sigobj = Opaque('a __signature__ value')
             f = new_obj('func', slots={'__wrapped__': slot('func', 'wrapped', wrapped), '__signature__': slot('func', 'signature', sigobj)})
+            # the object may be a CLASS whose own namespace stores a descriptor under __signature__ (specifiers.as_forged):
+            # attribute lookup then yields what the descriptor computes, not the stored descriptor
+            f.descriptors['__signature__'] = (z3.Bool('own___signature___is_a_descriptor'), Opaque('what the descriptor computes'))
             for o in objs:
                 o.snapshot()
             harness.run_unit(I, ma.ns['autoforwards_function'], [f, (), SymDict()], [], r)
@@ -616,6 +632,21 @@ def vcs(env, want):
             for n in env['ast_pre']:
                 ok = getattr(n, 'cls', None) in FUNCTION_NODES or not isinstance(n, SymNode)
                 out.append(VC(F_ASTPRE.full, [], z3.BoolVal(bool(ok)), F_ASTPRE.props))
+    if mode == 'af_function_ua' and env.get('annotated') is not None:
+        if on(F_ANN):
+            from .common import ua_denotes
+            EmptyAnn = I.module('sigtools._signatures').ns['EmptyAnnotation']
+            ai = env['annotated']
+            for s_ in env['sigs_to_discovery']:
+                ps = s_._d['_parameters'].plist if isinstance(s_, Inst) and '_parameters' in s_._d else None
+                if ps is None or len(ps) != len(ai.params):
+                    out.append(VC(F_ANN.full + ':signature', [], z3.BoolVal(False), F_ANN.props))
+                    continue
+                for p, o in zip(ps, ai.params):
+                    given = o._d['_annotation']
+                    h, den = ua_denotes(p._d['upgraded_annotation'], EmptyAnn)
+                    out.append(VC(F_ANN.full + ':%s' % o._d.get('_vf_tag', '?'), [given.has], z3.And(h, den == given.val), F_ANN.props))
+        return out
     if mode == 'af_function_ua':
         if on(F_UA):
             from .common import ua_denotes
@@ -805,9 +836,31 @@ def vcs(env, want):
     return out
 
 
+def replay_annotated(env, vc, model):
+    """native witness of the annotate + discovery clause"""
+    from vf.concrete import real_sigtools
+    real_sigtools()
+    import sigtools
+    from sigtools import modifiers, specifiers
+
+    def callee(x, y):
+        return x, y
+
+    @modifiers.annotate(a=int)
+    def f(a, *args, **kwargs):
+        return callee(*args, **kwargs)
+    bad = []
+    for how, sig in (('sigtools.signature(f)', sigtools.signature(f)), ('specifiers.signature(f, auto=False)', specifiers.signature(f, auto=False))):
+        if sig.parameters['a'].annotation is not int:
+            bad.append(('post:annotate_values_reach_discovery', '%s = %s for @annotate(a=int) def f(a, *args, **kwargs): return callee(*args, **kwargs)' % (how, sig)))
+    return dict(status='reproduced' if bad else 'not-reproduced', op='retrieval:annotate + discovery', violated=[list(b) for b in bad])
+
+
 def replay(env, vc, model):
     """tier-P obligations over symbolic objects: the counterexample is described (attribute state at entry, external
     outcomes in order); a native witness is searched by contracts.retrieval_native when one exists for the clause"""
+    if env.get('annotated') is not None:
+        return replay_annotated(env, vc, model)
     desc = {}
     for o in env.get('objs', []):
         st = {}
